@@ -165,6 +165,18 @@ def run_pair(case):
                 ('=SUM((%s,%s))*1000+SUM(%s %s)' % (nb, R.name(i), na, nb), N(1000 * (su(sb) + su(sa & sb)) + su(sa & sb))),
                 ('=SUM(%s)*1000+SUM(%s %s)' % (R.name(i), nb, na), N(1001 * su(sa & sb))),
             ]
+        # the same operands written in R1C1 notation (absolute, and relative to the host cell Z99) and mixed with A1
+        def r1c1(t, rel=False):
+            c1, r1, c2, r2 = t
+            cell = (lambda c, r: 'R[%d]C[%d]' % (r - 99, c - 26)) if rel else (lambda c, r: 'R%dC%d' % (r, c))
+            return cell(c1, r1) if (c1, r1) == (c2, r2) else '%s:%s' % (cell(c1, r1), cell(c2, r2))
+        if n == 4 and (ia + ib) % 2 == 0 or (ia + ib) % 7 == 0:
+            for xa, xb in ((r1c1(a), r1c1(b)), (r1c1(a, True), r1c1(b, True)), (na, r1c1(b, True)), (r1c1(a), nb)):
+                tests += [
+                    ('=SUM(%s %s)' % (xa, xb), exp_i),
+                    ('=SUM((%s,%s))' % (xa, xb), N(su(sa) + su(sb))),
+                    ('=SUM((%s):(%s))' % (xa, xb), N(su(R.cells(bb)))),
+                ]
         for f, exp in tests:
             if exp is None:
                 continue
